@@ -5,9 +5,8 @@ use educe::Educe;
 use core::cmp::Ordering;
 #[derive(Educe)]
 #[educe(PartialEq)]
-#[educe(Eq)]
-pub enum T { A { #[educe(PartialEq(method = m_eq))] other: A<0>, #[educe(Eq(method = m_eq))] x: A<1>, #[educe(PartialEq(ignore(true)))] a: A<0> }, V1 { r#type: A<0>, #[educe(PartialEq(ignore(true)))] other: A<1> }, Unit { a: A<0> }, C(#[educe(PartialEq = false)] A<0>, #[educe(PartialEq = true)] A<0>, A<2>, A<3>) }
-pub fn values() -> Vec<T> { vec![T::A { other: A(1), x: A(7), a: A(0) }, T::A { other: A(7), x: A(1), a: A(1) }, T::A { other: A(7), x: A(7), a: A(0) }, T::A { other: A(0), x: A(7), a: A(0) }, T::A { other: A(7), x: A(0), a: A(1) }, T::A { other: A(1), x: A(7), a: A(1) }, T::A { other: A(1), x: A(7), a: A(7) }, T::A { other: A(7), x: A(7), a: A(7) }, T::A { other: A(1), x: A(0), a: A(1) }, T::A { other: A(1), x: A(0), a: A(7) }, T::A { other: A(1), x: A(1), a: A(1) }, T::A { other: A(7), x: A(0), a: A(7) }, T::V1 { r#type: A(0), other: A(0) }, T::V1 { r#type: A(0), other: A(1) }, T::V1 { r#type: A(0), other: A(7) }, T::V1 { r#type: A(1), other: A(0) }, T::V1 { r#type: A(1), other: A(1) }, T::V1 { r#type: A(1), other: A(7) }, T::V1 { r#type: A(7), other: A(0) }, T::V1 { r#type: A(7), other: A(1) }, T::V1 { r#type: A(7), other: A(7) }, T::Unit { a: A(0) }, T::Unit { a: A(1) }, T::Unit { a: A(7) }, T::C(A(1), A(7), A(0), A(1)), T::C(A(0), A(0), A(0), A(0)), T::C(A(1), A(0), A(7), A(0)), T::C(A(7), A(0), A(0), A(0)), T::C(A(1), A(7), A(1), A(7)), T::C(A(1), A(1), A(1), A(1)), T::C(A(1), A(1), A(0), A(1)), T::C(A(7), A(1), A(7), A(0)), T::C(A(1), A(0), A(0), A(1)), T::C(A(7), A(7), A(0), A(7)), T::C(A(7), A(1), A(7), A(1)), T::C(A(7), A(0), A(0), A(1))] }
-pub fn show(x: &T) -> String { #[allow(unused_variables)] match x { T::A { other: p0, x: p1, a: p2 } => format!("A({},{},{})", sv(p0), sv(p1), sv(p2)), T::V1 { r#type: p0, other: p1 } => format!("V1({},{})", sv(p0), sv(p1)), T::Unit { a: p0 } => format!("Unit({})", sv(p0)), T::C(p0, p1, p2, p3) => format!("C({},{},{},{})", sv(p0), sv(p1), sv(p2), sv(p3)) } }
-pub fn o_eq(a: &T, b: &T) -> bool { match (a, b) { (T::A { other: a0, x: a1, a: a2 }, T::A { other: b0, x: b1, a: b2 }) => m_eq(a0, b0) && m_eq(a1, b1), (T::V1 { r#type: a0, other: a1 }, T::V1 { r#type: b0, other: b1 }) => (a0 == b0), (T::Unit { a: a0 }, T::Unit { a: b0 }) => (a0 == b0), (T::C(a0, a1, a2, a3), T::C(b0, b1, b2, b3)) => (a1 == b1) && (a2 == b2) && (a3 == b3), _ => false } }
+pub struct T(#[educe(PartialEq(method = m_eq))] A<0>, #[educe(PartialEq(method = m_eq))] A<1>, #[educe(PartialEq(ignore(true)))] A<2>, A<3>);
+pub fn values() -> Vec<T> { vec![T(A(7), A(0), A(7), A(7)), T(A(1), A(1), A(1), A(7)), T(A(1), A(0), A(7), A(1)), T(A(1), A(1), A(0), A(7)), T(A(1), A(1), A(0), A(0)), T(A(7), A(7), A(7), A(0)), T(A(1), A(1), A(7), A(1)), T(A(7), A(1), A(1), A(0)), T(A(1), A(1), A(7), A(7)), T(A(0), A(7), A(7), A(7)), T(A(7), A(7), A(1), A(0)), T(A(7), A(0), A(1), A(0)), T(A(0), A(1), A(7), A(1)), T(A(0), A(1), A(1), A(0)), T(A(0), A(7), A(0), A(0)), T(A(1), A(0), A(0), A(7)), T(A(0), A(1), A(7), A(0)), T(A(7), A(1), A(1), A(7)), T(A(7), A(7), A(0), A(7)), T(A(0), A(7), A(1), A(0)), T(A(7), A(1), A(7), A(1)), T(A(7), A(1), A(7), A(7)), T(A(0), A(0), A(1), A(7)), T(A(0), A(0), A(1), A(0)), T(A(1), A(1), A(1), A(0)), T(A(7), A(0), A(0), A(7)), T(A(0), A(0), A(0), A(7)), T(A(7), A(1), A(0), A(0)), T(A(1), A(0), A(1), A(0)), T(A(7), A(1), A(1), A(1)), T(A(1), A(0), A(7), A(0)), T(A(7), A(7), A(1), A(1)), T(A(0), A(7), A(0), A(7)), T(A(7), A(0), A(0), A(1)), T(A(0), A(0), A(7), A(1)), T(A(1), A(7), A(7), A(0)), T(A(7), A(1), A(0), A(1)), T(A(1), A(7), A(1), A(0)), T(A(7), A(7), A(7), A(1)), T(A(0), A(0), A(7), A(7)), T(A(1), A(0), A(0), A(1)), T(A(1), A(7), A(0), A(1)), T(A(7), A(0), A(7), A(0)), T(A(0), A(7), A(7), A(0)), T(A(0), A(1), A(0), A(0)), T(A(7), A(7), A(0), A(0)), T(A(0), A(1), A(7), A(7)), T(A(0), A(7), A(1), A(7))] }
+pub fn show(x: &T) -> String { #[allow(unused_variables)] match x { T(p0, p1, p2, p3) => format!("T({},{},{},{})", sv(p0), sv(p1), sv(p2), sv(p3)) } }
+pub fn o_eq(a: &T, b: &T) -> bool { match (a, b) { (T(a0, a1, a2, a3), T(b0, b1, b2, b3)) => m_eq(a0, b0) && m_eq(a1, b1) && (a3 == b3) } }
 pub fn run(out: &mut Out) { let vs = values(); for a in &vs { for b in &vs { let e = o_eq(a, b); out.check((a == b) == e, "eq_16", "eq", || format!("{} == {} expected {}", show(a), show(b), e)); out.check((a != b) == !e, "eq_16", "ne", || format!("{} != {} expected {}", show(a), show(b), !e)); } } }
